@@ -1,5 +1,5 @@
 import SspModel.Lemmas.Eject
-import SspModel.Lemmas.Bridge
+import SspModel.Lemmas.Bridge.Kicks
 import SspModel.Model.Kicks
 import Mathlib.Analysis.SpecialFunctions.Sqrt
 import Mathlib.Analysis.Calculus.Deriv.Pow
